@@ -179,8 +179,8 @@ def cellUn (o : Oracle) (op : UnOp) (v : Value) : Res Value :=
     if I64.inRange i then ofOpt (Time.trySeconds i) (.invalidCast v) .duration else .err (.invalidCast v)
   | .duration, .duration d => .ok (.duration d)
   -- strings
-  | .upper, .str s => if Str.isAscii s then .ok (.str (s.map Str.asciiUpper)) else o.ask .strUpper [v] (.panic .unwrap)
-  | .lower, .str s => if Str.isAscii s then .ok (.str (s.map Str.asciiLower)) else o.ask .strLower [v] (.panic .unwrap)
+  | .upper, .str s => if Str.isAscii s then .ok (.str (s.map Str.asciiUpper)) else o.ask .strUpper [v] (.frontier .strUpper [v])
+  | .lower, .str s => if Str.isAscii s then .ok (.str (s.map Str.asciiLower)) else o.ask .strLower [v] (.frontier .strLower [v])
   | .trim, .str s => .ok (.str (Str.trim s))
   -- rounding
   | .round, .float f => .ok (.float (F64.round f))
